@@ -34,7 +34,7 @@ PROPS = {
         'not_decided': 'that each lowering is the right cone',
     },
     'C07': {
-        'rules': ['R15', 'R33'],
+        'rules': ['R15', 'R33', 'R06'],
         'decided': 'integrality vector aligned with columns under every call history; '
                    'formulation-time variables are continuous; weight bookkeeping of the power-cone '
                    'tower (padding to a power of two exactly once, children of split() sum to half the '
@@ -57,9 +57,10 @@ PROPS = {
         'not_decided': 'numerical equality of re-solve and from-scratch results',
     },
     'C10': {
-        'rules': ['R11'],
+        'rules': ['R11', 'R25'],
         'decided': 'sign calculus of every convex family class x operator over the whole sign '
                    'domain; comparison guards; bilinear guards',
+        'decided_more': 'the static/adaptive flag `fixed` of a rebuilt DecAffine depends on self.fixed on every path (R25d)',
         'not_decided': 'that each atom\'s base function is convex as labelled',
     },
     'C11': {
@@ -81,13 +82,13 @@ PROPS = {
         'not_decided': 'partition refinement arithmetic, masks -> variable indices',
     },
     'C14': {
-        'rules': ['R26', 'R17'],
+        'rules': ['R26', 'R17', 'R34'],
         'decided': 'row/label agreement in lp do_math; dual() applies the model sign; y carries '
                    'pi/upi/lpi for every dual-capable interface',
         'not_decided': 'each solver\'s sign convention, complementary slackness',
     },
     'C15': {
-        'rules': ['R12', 'R13', 'R08', 'R28'],
+        'rules': ['R12', 'R13', 'R08', 'R28', 'R34'],
         'decided': '>= is the mirror of <=; reflected operators; equality == two inequalities '
                    'including the attached set',
         'not_decided': 'value-level metamorphic relations',
@@ -116,7 +117,7 @@ PROPS = {
         'not_decided': 'bit-identical numerics across processes',
     },
     'C05': {
-        'rules': ['R24', 'R03'],
+        'rules': ['R24', 'R03', 'R34'],
         'decided': 'shape law for the constant part of Affine/RoAffine results; operations build new '
                    'objects and never edit their operands in place (NumPy semantics), including through '
                    'shared sparse buffers (x + 0, csr_matrix(x.linear))',
